@@ -92,9 +92,9 @@ def plan(ctx):
     """a case is a function of (kind, index, seed) only: the larger generators of the thorough tier have their own
     kinds (`mergeL`), so a replay does not depend on VERIF_TIER"""
     if ctx.thorough:
-        return ([("merge", i) for i in range(1500)] + [("mergeL", i) for i in range(1500)]
-                + [("single", i) for i in range(200)] + [("refuse", i) for i in range(80)]
-                + [("e2e", i) for i in range(1600)])
+        return ([("merge", i) for i in range(4000)] + [("mergeL", i) for i in range(4000)]
+                + [("single", i) for i in range(400)] + [("refuse", i) for i in range(160)]
+                + [("e2e", i) for i in range(4800)])
     return ([("merge", i) for i in range(320)] + [("single", i) for i in range(30)] + [("refuse", i) for i in range(16)]
             + [("e2e", i) for i in range(480) if i % 8 in E2E_QUICK])
 
@@ -672,7 +672,7 @@ def post(ctx):
         "likelihood": "1e-5*(1+|ll|) between two runs of the same kernel on the same labelled rows (tie order matched)",
     }
     c = ctx.counters
-    q = 1 if not ctx.thorough else 5
+    q = 1 if not ctx.thorough else 10
     ctx.require("merge cases where the sort moves rows across a source boundary", c["sort-crosses-source-boundary"], 150 * q)
     ctx.require("list input", c["form:list"], 60 * q)
     ctx.require("dict with integer keys", c["form:dict_int"], 60 * q)
